@@ -264,7 +264,9 @@ impl ChainSt {
             self.check_credential_variants(f)?;
         }
         let a = write_head(f, false);
-        let b = write_head(f, true);
+        // second schedule: buffers that just hold the longest line of the head (plus the empty line)
+        let longest = a.bytes.split(|c| *c == b'\n').map(|l| l.len() + 1).max().unwrap_or(0);
+        let b = write_head_sized(f, (longest + 2).max(48));
         if a.err.is_some() {
             // the library refuses to write this request: nothing may have been emitted
             if !a.bytes.is_empty() || !b.bytes.is_empty() {
@@ -411,6 +413,15 @@ impl Sys for ChainSt {
                 Ok(())
             }
             Followed::New(nf) => {
+                // Checks that do not judge the resolution itself (C13, C16, C02) follow the library's own
+                // target: the credential rule speaks about the host the request really goes to.
+                let target = if self.cfg.check_target {
+                    target
+                } else {
+                    let mut t = uri3986::split(&nf.uri().to_string());
+                    t.fragment = None;
+                    uri3986::components(&t).map(|_| t)
+                };
                 let t = match target {
                     Ok(t) => t,
                     Err(why) => {
@@ -436,6 +447,12 @@ impl Sys for ChainSt {
                     };
                     if got != want {
                         return Err((self.k("wrong-target"), format!("hop {}: Location {:?} against the current URI {} must resolve to {:?} but the new flow targets {} = {:?}", self.hop + 1, loc.last_str(), uri3986::to_string(&self.cur), want, u, got)));
+                    }
+                    // userinfo is part of the authority of the resolved reference
+                    let ui = |a: Option<&str>| a.and_then(|a| a.rfind('@').map(|i| a[..i].to_string()));
+                    let (want_ui, got_ui) = (ui(t.authority.as_deref()), ui(u.authority().map(|a| a.as_str())));
+                    if want_ui != got_ui {
+                        return Err((self.k("wrong-target-userinfo"), format!("hop {}: Location {:?} resolves to {} (userinfo {:?}) but the new flow's URI is {} (userinfo {:?})", self.hop + 1, loc.last_str(), uri3986::to_string(&t), want_ui, u, got_ui)));
                     }
                     if u.to_string().contains('#') {
                         return Err((self.k("fragment-kept"), format!("fragment kept in {}", u)));
